@@ -313,6 +313,19 @@ def run(ctx, br):
         "meta": {"main.frugal": {"scopes_src": []}, "y.frugal": {"scopes_src": []},
                  "a/x.frugal": {"scopes_src": []}, "b/x.frugal": {"scopes_src": []}}})
 
+    # --replay <file>: only the program and target of the recorded violation
+    rep = getattr(ctx, "replaying", None)
+    if rep and isinstance(rep.get("replay", {}).get("program"), dict):
+        rp = rep["replay"]
+        files = rp["program"]
+        main = "main.frugal" if "main.frugal" in files else sorted(files)[0]
+        programs = [{"id": 0, "main": main, "files": files, "meta": {}, "n_files": len(files), "n_includes_main": 0,
+                     "n_includes_total": sum(t.count("\ninclude ") + t.startswith("include ") for t in files.values()),
+                     "twins": False, "vendored": 0}]
+        n_prog = 0
+        if rp.get("gen"):
+            gens = [rp["gen"]]
+
     # ---- lay the programs out at two absolute roots ------------------------------------------
     for prog in programs:
         pid = prog["id"]
